@@ -278,7 +278,11 @@ def run_job(job, tier, verbose=False, keep=None):
             if r.get("description", "").startswith("MACHINERY:") and r.get("status") == "FAILURE":
                 raise MachineryError(r["description"])
             if "unwinding assertion" in r.get("description", "") and r.get("status") == "FAILURE":
-                raise MachineryError("unwinding assertion failed: bound too small for %s" % r.get("property"))
+                other = [x for x in results if x.get("status") == "FAILURE" and classify_prop(x) == "oblig"
+                         and "unwinding assertion" not in x.get("description", "")]
+                if not other:
+                    raise MachineryError("unwinding assertion failed: bound too small for %s" % r.get("property"))
+                continue   # a runaway loop behind a real failure: report the real failure
             k = classify_prop(r)
             name = r.get("property", "?")
             st = r.get("status")
@@ -383,16 +387,28 @@ def lib_sources():
     return sorted(os.path.basename(p) for p in glob.glob(os.path.join(SRC, "*.c")) if os.path.basename(p) not in NOT_LINUX)
 
 
+_NATIVE_OBJ_CACHE = {}
+
+
 def build_native(driver_c, outdir):
-    """Compile a native replay driver against the real sources of REPO. Returns exe path."""
+    """Compile a native replay driver against the real sources of REPO. Returns exe path.
+    Library objects are compiled once per run (cache directory removed at exit)."""
     src = open(driver_c).read()
     m = re.search(r"REPLAY-INCLUDES:\s*(.*)", src)
     included = m.group(1).split() if m else []
     objs = []
     srcs = [s for s in lib_sources() if s not in included]
 
+    if "dir" not in _NATIVE_OBJ_CACHE:
+        import atexit
+        _NATIVE_OBJ_CACHE["dir"] = tempfile.mkdtemp(prefix="ksi-vp-nativeobj-")
+        atexit.register(shutil.rmtree, _NATIVE_OBJ_CACHE["dir"], True)
+    objdir = _NATIVE_OBJ_CACHE["dir"]
+
     def cc(s):
-        o = os.path.join(outdir, s.replace(".c", ".o"))
+        o = os.path.join(objdir, s.replace(".c", ".o"))
+        if os.path.exists(o):
+            return o
         rc, so, se, dt = sh(["gcc", "-O0", "-g", "-w", "-fsanitize=address", "-fno-omit-frame-pointer", "-c", "-I" + os.path.join(REPO, "src"), "-I" + SRC, "-DHAVE_CONFIG_H",
                              os.path.join(SRC, s), "-o", o], 300)
         if rc != 0:
